@@ -95,6 +95,9 @@ def mangle(cls_name: str, attr: str) -> str:
     return attr
 
 
+_PARSE_CACHE: Dict[Tuple[str, int, int], "Module"] = {}
+
+
 class Repo:
     def __init__(self, root: Optional[str] = None, overrides: Optional[Dict[str, str]] = None):
         """`overrides` (rel path -> source text) replaces files in memory: used by the
@@ -108,14 +111,24 @@ class Repo:
             try:
                 if rel in overrides:
                     src = overrides[rel]
+                    tree = ast.parse(src, filename=rel)
+                    self.modules[rel] = Module(rel, path, src, tree)
                 else:
-                    with open(path, "r", encoding="utf-8") as fh:
-                        src = fh.read()
-                tree = ast.parse(src, filename=rel)
+                    # unchanged files are parsed once per process (variants of the tree differ in one or two files);
+                    # the parsed modules are never mutated by the rules
+                    st = os.stat(path)
+                    key = (path, st.st_mtime_ns, st.st_size)
+                    cached = _PARSE_CACHE.get(key)
+                    if cached is None:
+                        with open(path, "r", encoding="utf-8") as fh:
+                            src = fh.read()
+                        tree = ast.parse(src, filename=rel)
+                        cached = Module(rel, path, src, tree)
+                        _PARSE_CACHE[key] = cached
+                    self.modules[rel] = cached
             except (OSError, SyntaxError, UnicodeDecodeError) as exc:
                 self.parse_failures.append((rel, repr(exc)))
                 continue
-            self.modules[rel] = Module(rel, path, src, tree)
 
     def _py_files(self) -> Iterable[str]:
         skip_dirs = {".git", "__pycache__", "erdos_sim.egg-info", "build", "extern", ".pytest_cache"}
